@@ -15,6 +15,7 @@ THEOREMS = [
     "C06_rule_equiv_KnownFragmentNames", "C06_rule_equiv_LoneAnonymousOperation",
     "C06_rule_equiv_UniqueFragmentNames", "C06_rule_equiv_ValuesOfCorrectType_position",
     "C06_rule_equiv_ExecutableDefinitions", "C06_rule_equiv_SingleFieldSubscriptions", "C06_rule_equiv_KnownTypeNames", "C06_rule_equiv_FragmentsOnCompositeTypes", "C06_rule_equiv_VariablesAreInputTypes", "C06_rule_equiv_ScalarLeafs", "C06_rule_equiv_FieldsOnCorrectType", "C06_rule_equiv_PossibleFragmentSpreads", "C06_rule_equiv_UniqueVariableNames", "C06_rule_equiv_KnownDirectives", "C06_rule_equiv_UniqueDirectivesPerLocation", "C06_rule_equiv_KnownArgumentNames", "C06_rule_equiv_UniqueArgumentNames", "C06_rule_equiv_ProvidedRequiredArguments", "C06_rule_equiv_UniqueInputFieldNames", "C06_rule_equiv_UniqueOperationName_joint", "C06_verdict_partial", "C06_perm_definitions", "C06_perm_selections_arguments", "C06_rename_partial",
+    "C06_rule_equiv_ValuesOfCorrectType", "C06_rule_equiv_VariablesInAllowedPosition", "C06_verdict_25", "C06_perm_definitions_25",
     "C06_perm_definitions_partial", "C06_perm_selections_arguments_partial", "C06_close_reachability",
 ]
 AXIOMS_OK = []
